@@ -358,7 +358,7 @@ PRELUDE = '''    use super::types::*;
 
 RUN = r'''
 /// Versions at which documents and lookups are taken.
-const PROBES: &[&str] = &["0.9.0", "1.0.0", "1.5.0", "2.0.0", "2.0.1", "3.0.0", "4.0.0"];
+const PROBES: &[&str] = &["0.9.0", "1.0.0-rc.1", "1.0.0", "1.5.0", "2.0.0-rc.1", "2.0.0", "2.0.1", "3.0.0-alpha", "3.0.0", "4.0.0"];
 
 fn recs<C: dropshot::ServerContext>(api: dropshot::ApiDescription<C>) -> (BTreeMap<String, String>, Vec<String>) {
     let router = api.into_router();
